@@ -76,6 +76,12 @@ contract(Contract(
         "len_fn": Callee("uf", ret="int", sig=["s"]),
         "markdown_escape_word": Callee("uf", ret="str", sig=["word"]),
     },
+    at_call={"WordSplitter.__call__": {
+        # C03: the words are a function of the text with every whitespace run (spaces, tabs, newlines; also inside
+        # constructs the splitter keeps whole) collapsed to one space -- the source's layout cannot reach the words
+        "whitespace_collapsed": Clause("implies(replace_whitespace, arg_text == call('re.sub', '\\\\s+', ' ', old('text')))",
+                                       props=["C03", "C02"]),
+    }},
     ghost={"outw": "[]", "cuts": "[]", "ends": "[]", "lead": "[]", "cs": "0", "nlead": "0"},
     hooks=[
         ("after", "lines.append(line)", "cuts.append(cs); ends.append(len(outw))"),
@@ -135,6 +141,8 @@ contract(Contract(
          ["C05"], ["inv-preserve[loop0.cw", "inv-preserve[loop0.bounded_cur"]),
         ("if is_markdown and not first_line:", "if is_markdown:", ["C05", "C01"], ["inv-preserve[loop0.word"]),
         ("    # Add the last line if necessary.\n    if current_line:", "    if False:", ["C05"], ["post[lossless.tiling"]),
+        ('    if replace_whitespace:\n        text = re.sub(r"\\s+", " ", text)', '    if replace_whitespace:\n        text = text.replace("\\n", " ")',
+         ["C03"], ["whitespace_collapsed"]),
         ("                lines.append(line)\n                first_line = False", "                first_line = False",
          ["C05"], ["inv-preserve[loop0"]),
     ],
